@@ -462,6 +462,24 @@ func (st *store) exec(line string) (out string) {
 		c := elemsOf(ws[2]).Elements[k].Iter
 		st.iters[ws[1]] = &c
 		return "ok"
+	case "elemset":
+		// an edit through the element's own iterator
+		k, _ := strconv.Atoi(ws[2])
+		it := &elemsOf(ws[1]).Elements[k].Iter
+		var err error
+		switch ws[3] {
+		case "bool":
+			err = it.SetBool(ws[4] == "1")
+		case "null":
+			err = it.SetNull()
+		default:
+			v, _ := strconv.ParseInt(ws[4], 10, 64)
+			err = it.SetInt(v)
+		}
+		if err != nil {
+			return "err"
+		}
+		return "ok"
 	case "emarshal":
 		b, err := elemsOf(ws[1]).MarshalJSON()
 		if err != nil {
